@@ -2,7 +2,7 @@
 # usage: runseed.sh <seed-dir-name> <property> [tier]   - apply a seeded change to /repo, run the check, undo it
 d=/verif/seeded/$1; prop=$2; tier=${3:-quick}
 cd /repo && git apply "$d/patch.diff" || { echo "patch does not apply"; exit 3; }
-cd /verif && ./check "$prop" "$tier" 2>&1 | grep -v "^loaded" | tail -${4:-6}
+mkdir -p /verif/out/seedrun; cd /verif && VERIF_EVIDENCE=/verif/out/seedrun/$prop.json ./check "$prop" "$tier" 2>&1 | grep -v "^loaded" | tail -${4:-6}
 rc=${PIPESTATUS[0]}
 git -C /repo apply -R "$d/patch.diff" || { echo "WARNING: could not revert the seeded patch cleanly"; }
 exit $rc
